@@ -204,6 +204,13 @@ func (m *Model) funcValueTargets(v ssa.Value) []*ssa.Function {
 		return []*ssa.Function{m.unwrapBound(x)}
 	case *ssa.ChangeType:
 		return m.funcValueTargets(x.X)
+	case *ssa.UnOp:
+		// a function value kept in a local cell
+		if al := m.Sym.resolveCell(x.X); al != nil {
+			if st := singleStore(al, m.Sym); st != nil {
+				return m.funcValueTargets(st)
+			}
+		}
 	}
 	return nil
 }
@@ -441,4 +448,152 @@ func sortedFns(set map[*ssa.Function]bool) []*ssa.Function {
 		return out[i].String() < out[j].String()
 	})
 	return out
+}
+
+// stopFrame lifts an instruction to the stop unit that (uniquely, through static calls)
+// executes it: a Delete moved into a helper of StopWithContext is still part of the stop.
+func (m *Model) stopFrame(in ssa.Instruction) (fn *ssa.Function, at ssa.Instruction, ok bool) {
+	fn, at = in.Parent(), in
+	for depth := 0; depth < 4; depth++ {
+		if containsFn(m.StopUnits, fn) {
+			return fn, at, true
+		}
+		if fn.Parent() != nil {
+			return fn, at, false
+		}
+		var sites []CallSite
+		for _, cs := range m.callers[fn] {
+			if !cs.IsGo {
+				sites = append(sites, cs)
+			} else {
+				return fn, at, false
+			}
+		}
+		if len(sites) != 1 {
+			return fn, at, false
+		}
+		fn, at = sites[0].Caller, sites[0].Instr
+	}
+	return fn, at, false
+}
+
+// Spawn is a place where the library starts a goroutine: a go statement, or a call of a
+// "spawn helper" (a function that does wg.Add(1); go func(){ defer wg.Done(); fn() }() for a
+// function parameter fn), in which case At is the call of the helper.
+type Spawn struct {
+	At      ssa.Instruction
+	Fn      *ssa.Function
+	Targets []*ssa.Function
+	Tracked bool
+	Go      *ssa.Go
+}
+
+func (m *Model) Spawns() []Spawn {
+	if m.spawns != nil {
+		return m.spawns
+	}
+	type helper struct {
+		g   *ssa.Go
+		idx int
+	}
+	helpers := map[*ssa.Function]helper{}
+	for _, h := range m.Funcs {
+		if h.Parent() != nil {
+			continue
+		}
+		var gos []*ssa.Go
+		eachInstr(h, func(in ssa.Instruction) {
+			if g, ok := in.(*ssa.Go); ok {
+				gos = append(gos, g)
+			}
+		})
+		if len(gos) != 1 {
+			continue
+		}
+		for _, t := range m.funcValueTargets(gos[0].Call.Value) {
+			eachInstr(t, func(in ssa.Instruction) {
+				call, ok := in.(*ssa.Call)
+				if !ok || call.Call.IsInvoke() || call.Call.StaticCallee() != nil {
+					return
+				}
+				// the called value is (a captured copy of) a parameter of h
+				v := call.Call.Value
+				if u, ok := v.(*ssa.UnOp); ok {
+					if al := m.Sym.resolveCell(u.X); al != nil {
+						if st := singleStore(al, m.Sym); st != nil {
+							v = st
+						}
+					}
+				}
+				if fv, ok := v.(*ssa.FreeVar); ok {
+					if mc := m.Sym.closureOf[fv.Parent()]; mc != nil {
+						for i, x := range fv.Parent().FreeVars {
+							if x == fv && i < len(mc.Bindings) {
+								v = mc.Bindings[i]
+							}
+						}
+					}
+				}
+				if p, ok := v.(*ssa.Parameter); ok && p.Parent() == h {
+					for i, q := range h.Params {
+						if q == p {
+							helpers[h] = helper{gos[0], i}
+						}
+					}
+				}
+			})
+		}
+	}
+	var out []Spawn
+	for _, f := range m.Funcs {
+		eachInstr(f, func(in ssa.Instruction) {
+			switch x := in.(type) {
+			case *ssa.Go:
+				if hp, ok := helpers[topFunc(f)]; ok && hp.g == x {
+					return // reported at the helper's call sites
+				}
+				var ts []*ssa.Function
+				if sc := x.Call.StaticCallee(); sc != nil {
+					ts = append(ts, sc)
+				}
+				ts = append(ts, m.funcValueTargets(x.Call.Value)...)
+				out = append(out, Spawn{At: x, Fn: f, Targets: dedupFns(ts), Tracked: m.goTracked(x), Go: x})
+			case *ssa.Call:
+				if h := x.Call.StaticCallee(); h != nil {
+					if hp, ok := helpers[h]; ok && hp.idx < len(x.Call.Args) {
+						out = append(out, Spawn{At: x, Fn: f, Targets: dedupFns(m.funcValueTargets(x.Call.Args[hp.idx])), Tracked: m.goTracked(hp.g), Go: hp.g})
+					}
+				}
+			}
+		})
+	}
+	m.spawns = out
+	if m.spawns == nil {
+		m.spawns = []Spawn{}
+	}
+	return m.spawns
+}
+
+// spawnAt returns the spawn whose site is the instruction, if any.
+func (m *Model) spawnAt(in ssa.Instruction) *Spawn {
+	for i := range m.Spawns() {
+		if m.spawns[i].At == in {
+			return &m.spawns[i]
+		}
+	}
+	return nil
+}
+
+// spawnsStoreOp: the instruction starts a goroutine that can issue store operations.
+func (m *Model) spawnsStoreOp(in ssa.Instruction) bool {
+	sp := m.spawnAt(in)
+	if sp == nil {
+		return false
+	}
+	for _, t := range sp.Targets {
+		if m.reachesStoreOp(t) {
+			return true
+		}
+	}
+	return false
 }
